@@ -93,6 +93,11 @@ AllOccurrencesUpdated(oldLine, newLine, ms, texts) ==
       Build(k) == IF k > Len(sp) THEN segs[k] ELSE segs[k] \o texts[sp[k].pat] \o Build(k + 1)
   IN newLine = Build(1)
 
+\* C03 stated on the new text alone: searching the new line with the pattern of a kept occurrence finds the new version rendered through that pattern
+\* (the left-most match of a pattern on a line is its occurrence there, before and after the update)
+ShowsNew(newLine, ms, pats, texts) ==
+  \A q \in 1..Len(ms) : LET m == Search(Compile(pats[ms[q].pat]), newLine) IN m.ok /\ SubSeq(newLine, m.start, m.end - 1) = texts[ms[q].pat]
+
 \* verdict on a recorded rewrite of one file: "ok" or the failing clause
 RewriteClause(old, new, pats, v) ==
   LET r == Rewrite(old, pats, v, Dev) IN
